@@ -144,9 +144,14 @@ def run_batch(job):
                 if not okc:
                     raise Machinery(f"close did not finish in the C04 reconnect item: {whyc}")
                 ep.link.on_send_hook = None
-                ep.link.connect()
-                s.settle()
-                ep.link.feed(link.hsms_frame(stype=1, system=2))
+                if rng.random() < 0.5:
+                    # the peer's Select.req is already in the socket when the connection is accepted
+                    ep.link.connect(inflight=link.hsms_frame(stype=1, system=2))
+                    s.settle()
+                else:
+                    ep.link.connect()
+                    s.settle()
+                    ep.link.feed(link.hsms_frame(stype=1, system=2))
                 s.settle()
                 ep.link.take_frames()
                 ep.link.on_send_hook = on_send
@@ -243,11 +248,14 @@ def run(ctx: Ctx):
                     add(kind, 0, ([a] if a else []) + [k, total - a - k])
     for i in range(300 if ctx.quick else 4000):
         add("random", rng.randrange(1 << 30), None)
-    for i in range(40 if ctx.quick else 400):
-        add("reconnect:random", rng.randrange(1 << 30), None)
     jobs = []
     for b, ch in enumerate(chunks(items, 28 if ctx.quick else 56)):
         pol = ["fifo", "random", "pct"][b % 3]
+        # in every batch (i.e. under every schedule policy and seed) one or two streams follow a connection that ended inside a frame
+        ch = list(ch)
+        for _ in range(1 if pol == "fifo" else 2):
+            tid += 1
+            ch.insert(rng.randrange(len(ch) + 1), (tid, "reconnect:random", rng.randrange(1 << 30), None))
         jobs.append((b, ch, rng.randrange(1 << 30), pol))
     results = pmap(run_batch, jobs)
     traces = []
